@@ -29,7 +29,7 @@ pub enum V {
     Int(i128, &'static str),
     Flt(f64, bool),
     Bool(bool),
-    Enum(u32),
+    Enum(usize, i32), // (variant index, discriminant)
     Ptr(u32),
     Slice(usize),
     Struct(usize, Vec<V>),
@@ -69,7 +69,7 @@ pub fn gen_v(c: &Case, f: &F, rng: &mut Rng) -> V {
             "u64" => V::Int(gen_int(rng, 0, u64::MAX as i128), "u64"),
             o => panic!("prim {o}"),
         },
-        F::Enum => V::Enum(rng.below(2) as u32),
+        F::Enum => { let k = rng.below(2); V::Enum(k, if k == 0 { c.discs.0 } else { c.discs.1 }) }
         F::BoxOpaque => V::Ptr(0x3000 + 8 * rng.below(100) as u32),
         F::Slice => V::Slice(rng.below(4)),
         F::Struct(k) => V::Struct(*k, c.structs[*k].iter().map(|x| gen_v(c, x, rng)).collect()),
@@ -85,7 +85,7 @@ pub fn js_lit(v: &V) -> String {
         V::Int(n, t) => if matches!(*t, "i64" | "u64") { format!("{n}n") } else { n.to_string() },
         V::Flt(x, _) => format!("{x:?}"),
         V::Bool(b) => b.to_string(),
-        V::Enum(d) => format!("En.{}", ["A", "B"][*d as usize]),
+        V::Enum(k, _) => format!("En.{}", ["A", "B"][*k]),
         V::Ptr(p) => format!("new Op(rt.internalConstructor, {p}, [null])"),
         V::Slice(n) => format!("[{}]", (0..*n).map(|k| slice_elem(k).to_string()).collect::<Vec<_>>().join(", ")),
         V::Struct(_, vs) => format!("{{{}}}", vs.iter().enumerate().map(|(i, x)| format!("f{i}: {}", js_lit(x))).collect::<Vec<_>>().join(", ")),
@@ -100,7 +100,7 @@ pub fn canon(v: &V) -> String {
         V::Int(n, _) => n.to_string(),
         V::Flt(x, _) => format!("{x}"),
         V::Bool(b) => b.to_string(),
-        V::Enum(d) => format!("E{d}"),
+        V::Enum(_, d) => format!("E{d}"),
         V::Ptr(p) => format!("P{p}"),
         V::Slice(n) => format!("[{}]", (0..*n).map(|k| slice_elem(k).to_string()).collect::<Vec<_>>().join(",")),
         V::Struct(_, vs) => format!("{{{}}}", vs.iter().map(canon).collect::<Vec<_>>().join(",")),
@@ -145,7 +145,7 @@ fn payload_bytes(c: &Case, f: &F, v: &V, layouts: &Layouts, out: &mut Vec<u8>, a
         (F::Prim(..), V::Bool(b)) => put(out, at, &[*b as u8]),
         (F::Prim(..), V::Flt(x, true)) => put(out, at, &(*x as f32).to_le_bytes()),
         (F::Prim(..), V::Flt(x, false)) => put(out, at, &x.to_le_bytes()),
-        (F::Enum, V::Enum(d)) => put(out, at, &d.to_le_bytes()),
+        (F::Enum, V::Enum(_, d)) => put(out, at, &d.to_le_bytes()),
         (F::BoxOpaque, V::Ptr(p)) => put(out, at, &p.to_le_bytes()),
         (F::Struct(k), V::Struct(_, vs)) => {
             let l = &layouts[*k];
@@ -175,7 +175,7 @@ pub fn leaves(c: &Case, f: &F, v: &V, layouts: &Layouts, out: &mut Vec<Leaf>) {
         (_, V::Int(n, t)) => out.push(Leaf::Val(if matches!(*t, "i64" | "u64") { format!("{n}n") } else { n.to_string() })),
         (_, V::Flt(x, _)) => out.push(Leaf::Val(format!("{x}"))),
         (_, V::Bool(b)) => out.push(Leaf::Val((*b as u8).to_string())),
-        (_, V::Enum(d)) => out.push(Leaf::Val(d.to_string())),
+        (_, V::Enum(_, d)) => out.push(Leaf::Val(d.to_string())),
         (_, V::Ptr(p)) => out.push(Leaf::Val(p.to_string())),
         (_, V::Slice(n)) => { out.push(Leaf::SlicePtr); out.push(Leaf::Val(n.to_string())); }
         (F::Struct(k), V::Struct(_, vs)) => for (ff, vv) in c.structs[*k].iter().zip(vs) { leaves(c, ff, vv, layouts, out) },
@@ -239,9 +239,9 @@ pub fn host_bytes(items: &[(&Case, &V)], dir: &Path) -> Option<Vec<(Vec<u8>, Vec
         let last = c.structs.len() - 1;
         let mut w = String::new();
         let mut ctr = 0;
-        host_write(c, ci, &F::Struct(last), v, "buf.as_mut_ptr()", &mut w, &mut ctr);
+        host_write(c, ci, &F::Struct(last), v, "buf", &mut w, &mut ctr);
         let lay: Vec<String> = c.structs.iter().enumerate().map(|(k, fs)| format!("({}, {}, vec![{}])", format!("size_of::<c{ci}::S{k}>()"), format!("align_of::<c{ci}::S{k}>()"), (0..fs.len()).map(|i| format!("offset_of!(c{ci}::S{k}, f{i})")).collect::<Vec<_>>().join(", "))).collect();
-        let _ = writeln!(main, "    {{ #[allow(unused_imports)] use c{ci}::*; let mut buf = std::mem::MaybeUninit::<c{ci}::S{last}>::zeroed(); let base = buf.as_mut_ptr() as usize; let mut mask: Vec<usize> = vec![]; unsafe {{ {w} }}\n      let bytes = unsafe {{ std::slice::from_raw_parts(base as *const u8, size_of::<c{ci}::S{last}>()) }};\n      let lay: Vec<(usize, usize, Vec<usize>)> = vec![{}];\n      println!(\"{{}} {{:?}} {{:?}}\", bytes.iter().map(|b| format!(\"{{b:02x}}\")).collect::<String>(), mask, lay); }}", lay.join(", "));
+        let _ = writeln!(main, "    {{ #[allow(unused_imports)] use c{ci}::*; let mut raw = [0u64; 64]; assert!(size_of::<c{ci}::S{last}>() <= 512); let buf = raw.as_mut_ptr() as *mut c{ci}::S{last}; let base = buf as usize; let mut mask: Vec<usize> = vec![]; unsafe {{ {w} }}\n      let bytes = unsafe {{ std::slice::from_raw_parts(base as *const u8, size_of::<c{ci}::S{last}>()) }};\n      let lay: Vec<(usize, usize, Vec<usize>)> = vec![{}];\n      println!(\"{{}} {{:?}} {{:?}}\", bytes.iter().map(|b| format!(\"{{b:02x}}\")).collect::<String>(), mask, lay); }}", lay.join(", "));
     }
     main += "}\n";
     std::fs::write(dir.join("bytes.rs"), format!("{src}{main}")).ok()?;
@@ -275,7 +275,7 @@ fn host_write(c: &Case, ci: usize, f: &F, v: &V, ptr: &str, out: &mut String, ct
         (F::Prim(..), V::Bool(b)) => { let _ = write!(out, "({ptr} as *mut bool).write({b}); "); }
         (F::Prim(..), V::Flt(x, true)) => { let _ = write!(out, "({ptr} as *mut f32).write({x:?}_f32); "); }
         (F::Prim(..), V::Flt(x, false)) => { let _ = write!(out, "({ptr} as *mut f64).write({x:?}_f64); "); }
-        (F::Enum, V::Enum(d)) => { let _ = write!(out, "({ptr} as *mut i32).write({d}); "); }
+        (F::Enum, V::Enum(_, d)) => { let _ = write!(out, "({ptr} as *mut i32).write({d}); "); }
         (F::BoxOpaque, V::Ptr(p)) => { let _ = write!(out, "({ptr} as *mut u32).write({p}); "); }
         (F::Slice, V::Slice(n)) => {
             *ctr += 1;
@@ -357,7 +357,7 @@ fn driver(c: &Case, v: &V, host_hex: &str, size: usize, real_wasm: bool) -> Stri
     if !c.out {
         let _ = writeln!(s, "let s;\nstep('build', () => {{ s = S{last}.fromFields({}); }});", js_lit(v));
         if real_wasm {
-            let _ = writeln!(s, "step('write', () => {{ op.take(s); out.push('write ' + hex(SCRATCH, SIZE)); }});");
+            let _ = writeln!(s, "step('write', () => {{ new Uint8Array(wasm.memory.buffer, SCRATCH, SIZE).fill(0); op.take(s); out.push('write ' + hex(SCRATCH, SIZE)); }});");
             let _ = writeln!(s, "step('readback', () => {{ out.push('readback ' + cS{last}(op.give())); }});");
         } else {
             let _ = writeln!(s, "step('write', () => {{ const arena = new rt.CleanupArena(); s._writeToArrayBuffer(wasm.memory.buffer, SCRATCH, arena, {{}}); out.push('write ' + hex(SCRATCH, SIZE)); }});");
@@ -385,7 +385,7 @@ fn driver(c: &Case, v: &V, host_hex: &str, size: usize, real_wasm: bool) -> Stri
 fn wasm_ty(c: &Case, f: &F) -> String {
     match f {
         F::Prim(n, _, _) => match *n { "DiplomatChar" => "u32".into(), "DiplomatByte" => "u8".into(), o => o.into() },
-        F::Enum => "En".into(),
+        F::Enum => "i32".into(), // the discriminants differ per case; the wire type is the same
         F::BoxOpaque => "u32".into(),
         F::Slice => "Sl".into(),
         F::Struct(k) => format!("S{k}"),
